@@ -29,14 +29,14 @@ FLOORS = {
                            "template_ctor_compares": 300, "overlay_compares": 300,
                            "isolation_rerenders": 150, "lexer_configs_interleaved": 60,
                            "pair_order_checks": 60, "overlay_divergent_option_checks": 100,
-                           "overlay_inherits_option_checks": 100}},
+                           "overlay_inherits_option_checks": 100, "overlay_resets_option_checks": 30}},
     "thorough": {"evaluations": 60000, "distinct": 6000,
                  "counters": {"delimiter_compares": 16000, "linestatement_compares": 6000,
                               "linestatement_blank_lines_before_tags": 1200,
                               "template_ctor_compares": 6000, "overlay_compares": 6000,
                               "isolation_rerenders": 3000, "lexer_configs_interleaved": 60,
                               "pair_order_checks": 60, "overlay_divergent_option_checks": 100,
-                              "overlay_inherits_option_checks": 100}},
+                              "overlay_inherits_option_checks": 100, "overlay_resets_option_checks": 30}},
 }
 
 SYNTAXES = {
@@ -473,6 +473,19 @@ def check_overlays(ctx, rng):
                               f"environment with these options renders {want_ov!r} for {src!r}",
                               {"kind": "overlaydim", "dim": name})
                 break
+        # an overlay may reset an inherited option to None where None is a documented value
+        if name in ("line_statement_prefix", "line_comment_prefix"):
+            for how, mk in (("overlay(%s=None)" % name, lambda: base2.overlay(**{name: None})),
+                            ("overlay().overlay(%s=None)" % name, lambda: base2.overlay().overlay(**{name: None}))):
+                ov3 = util.capture(mk)
+                got = get(ov3.value) if ov3.ok else ov3
+                ctx.ev()
+                ctx.count("overlay_resets_option_checks")
+                if not same(got, want_base):
+                    ctx.violation("overlay:does-not-reset:" + name,
+                                  f"Environment(**{delta}).{how}: get_template {got!r}; an environment without the "
+                                  f"option renders {want_base!r} for {src!r}", {"kind": "overlaydim", "dim": name})
+                    break
         ctx.dist(["overlaydim", name])
 
 
